@@ -72,7 +72,24 @@ def main():
     budget = a.budget or (getattr(mod, "BUDGET_QUICK", 75) if a.tier == "quick" else getattr(mod, "BUDGET_THOROUGH", 900))
     drv = core.Driver()
     out = {"evaluations": 0, "skipped": 0, "nontrivial_keys": [], "failures": [], "tags": {}, "streams": {},
-           "samples": [], "errors": []}
+           "samples": [], "errors": [], "known_counts": {}}
+    from harness import findings as F
+    kf = []
+    try:
+        kf = [e for e in json.load(open(os.path.join(VERIF, "known_findings.json"))).get("findings", [])
+              if e.get("property") == a.prop and e.get("status", "known") == "known"]
+    except Exception:
+        kf = []
+
+    def classify(f_):
+        for e in kf:
+            pred = getattr(F, e["predicate"], None)
+            try:
+                if pred is not None and pred(f_["stream"], f_["case"], f_.get("detail")):
+                    return e["id"]
+            except Exception:
+                continue
+        return None
     keys = set()
 
     def record(sname, case, r):
@@ -94,8 +111,16 @@ def main():
             d[str(tv)] = d.get(str(tv), 0) + 1
         if r.status == "fail":
             st["fail"] += 1
-            if len(out["failures"]) < 40:
-                out["failures"].append({"stream": sname, "case": case, "detail": r.detail, "key": k})
+            f_ = {"stream": sname, "case": case, "detail": r.detail, "key": k}
+            fid = classify(f_)
+            if fid is None:
+                if len(out["failures"]) < 60:
+                    out["failures"].append(f_)
+            else:
+                out["known_counts"][fid] = out["known_counts"].get(fid, 0) + 1
+                if out["known_counts"][fid] <= 2:
+                    f_["known"] = fid
+                    out["failures"].append(f_)
         if len(out["samples"]) < 2 * len(streams) and st["cases"] <= 2:
             out["samples"].append({"stream": sname, "case": case, "status": r.status})
 
